@@ -139,17 +139,41 @@ IterStep(it0, o, k) ==
                     IF kk < PHi(it1) /\ kk >= PLo(it1) /\ Cover(it1, kk) # {} THEN kk
                     ELSE Fwd(it1, IF kk < PLo(it1) THEN PLo(it1) ELSE kk)
               [] o = "seeklt" -> Bwd(it1, kk)
-              [] o = "next" -> IF it1.pos = R THEN R ELSE IF it1.pos = -1 THEN Fwd(it1, it1.lo) ELSE Fwd(it1, it1.pos + 1)
-              [] o = "prev" -> IF it1.pos = -1 THEN -1 ELSE IF it1.pos = R THEN Bwd(it1, it1.hi) ELSE Bwd(it1, it1.pos)
+              \* (pa: the iterator is paused at a limit and has not yielded pos yet)
+              [] o = "next" -> IF it1.pa = "f" THEN it1.pos
+                               ELSE IF it1.pos = R THEN R ELSE IF it1.pos = -1 THEN Fwd(it1, it1.lo) ELSE Fwd(it1, it1.pos + 1)
+              [] o = "prev" -> IF it1.pa = "b" THEN it1.pos
+                               ELSE IF it1.pos = -1 THEN -1 ELSE IF it1.pos = R THEN Bwd(it1, it1.hi) ELSE Bwd(it1, it1.pos)
               [] o = "nextprefix" -> IF it1.pfx >= 0 THEN R ELSE IF it1.pos = R THEN R
                                      ELSE IF it1.pos = -1 THEN Fwd(it1, it1.lo) ELSE Fwd(it1, PK(PfxOf(it1.pos) + 1))
       isErr == pfxErr \/ revInPfx \/ sticky \/ npErr
       fin == IF isErr THEN R ELSE np
-  IN [it |-> [it1 EXCEPT !.pos = fin, !.err = isErr], err |-> isErr,
+  IN [it |-> [it1 EXCEPT !.pos = fin, !.err = isErr, !.pa = ""], err |-> isErr,
       res |-> IF isErr THEN NoRes ELSE Res(it1, np)]
 
 NewIt(view, lo, hi, mask, kt) ==
-  [view |-> view, lo |-> lo, hi |-> hi, mask |-> mask, kt |-> kt, pos |-> -2, pfx |-> -1, err |-> FALSE]
+  [view |-> view, lo |-> lo, hi |-> hi, mask |-> mask, kt |-> kt, pos |-> -2, pfx |-> -1, err |-> FALSE, pa |-> ""]
+
+(* The *WithLimit variants (C02).  Limits are best effort: when the position the unlimited op would  *)
+(* reach lies at or beyond the limit (or there is none) the iterator MAY pause (IterAtLimit) without *)
+(* yielding it; it may equally return it (or report exhaustion).  It must never pause while the      *)
+(* target lies before the limit.  st is the validity state the real iterator reported.               *)
+LimOps == {"seekgel", "seekltl", "nextl", "prevl"}
+BaseOf(o) == CASE o = "seekgel" -> "seekge" [] o = "seekltl" -> "seeklt" [] o = "nextl" -> "next" [] o = "prevl" -> "prev"
+LimFwd(o) == o \in {"seekgel", "nextl"}
+IterStepLim(it0, o, k, lim, st, lg, lgerr) ==
+  LET r == IterStep(it0, BaseOf(o), k)
+      beyond == ~r.res.valid \/ (LimFwd(o) /\ r.res.k >= lim) \/ (~LimFwd(o) /\ r.res.k < lim)
+      ok == IF r.err THEN (lgerr /\ st = "exhausted")
+            ELSE /\ ~lgerr
+                 /\ CASE st = "valid" -> r.res.valid /\ ResMatch(lg, r.res)
+                      [] st = "atlimit" -> beyond
+                      [] st = "exhausted" -> ~r.res.valid
+                      [] OTHER -> FALSE
+      \* a relative limited step in prefix mode is an error ("cannot use limit with prefix iteration")
+      pfxLim == o \in {"nextl", "prevl"} /\ it0.pfx >= 0
+  IN IF pfxLim THEN [it |-> [it0 EXCEPT !.err = TRUE, !.pos = R, !.pa = ""], ok |-> (lgerr /\ st = "exhausted")]
+     ELSE [it |-> IF st = "atlimit" /\ ~r.err THEN [r.it EXCEPT !.pa = IF LimFwd(o) THEN "f" ELSE "b"] ELSE r.it, ok |-> ok]
 
 (* Sanity properties of the definitions, checked by KVSanity.cfg *)
 SpansWellFormed(rks) ==
